@@ -86,6 +86,20 @@ def gen(ctx):
             ("alt", "(%s // %s) |= (%s)" % (f, gg, u), "if first((%s) // false) then %s |= (%s) else %s |= (%s) end" % (f, f, u, gg, u)),
             ("recurse", ".. |= (%s)" % u, "def rec_up: (.[]? | rec_up), .; rec_up |= (%s)" % u if False else "walk(%s)" % u),
         ]
+        nc = rng.choice(["if type == \"array\" then reverse else . + 10 end", "if type == \"array\" then . + [0] else . + 1 end", "[.]",
+                         "if . == {} or . == [] then empty else . end", ". as $v | [$v, $v]", "if type == \"array\" then .[1:] else . end"])
+        xa, xb = rng.choice([("0", "0"), ("0", "1"), ("1", "0"), ("\"a\"", "0"), ("0", "\"a\""), ("-1", "0")])
+        fu = rng.choice([".[$p]", ".[$p]?", ".[$p][0]?", ".[$p:]", "(.[$p], .[0])"])
+        rules += [
+            ("foreach-upd", "foreach (%s, %s) as $p (.; %s) |= (%s)" % (xa, xb, fu, nc),
+             "(. | (%s as $p | %s | (., (%s as $p | %s | .)))) |= (%s)" % (xa, fu, xb, fu, nc)),
+            ("foreach3-upd", "foreach (%s, %s) as $p (.; %s; .) |= (%s)" % (xa, xb, fu, nc), "foreach (%s, %s) as $p (.; %s) |= (%s)" % (xa, xb, fu, nc)),
+            ("reduce-upd", "reduce (%s, %s) as $p (.; %s) |= (%s)" % (xa, xb, fu, nc), "(. | (%s as $p | %s | (%s as $p | %s))) |= (%s)" % (xa, fu, xb, fu, nc)),
+            ("recurse-def", "recurse |= (%s)" % nc, "recurse(.[]?) |= (%s)" % nc),
+            ("recurse-def2", "recurse |= (%s)" % nc, "def r: ., (.[]? | r); r |= (%s)" % nc),
+            ("ite-multi", "(if (true, false) then %s else %s end) |= (%s)" % (f, gg, nc), "((true, false) as $c | if $c then %s else %s end) |= (%s)" % (f, gg, nc)),
+            ("select-multi", "(.[]? | select(.a?, .b?)) |= (%s)" % nc, "(.[]? | (.a?, .b?) as $c | if $c then . else empty end) |= (%s)" % nc),
+        ]
         kind, lhs, rhs = rng.choice(rules)
         if rhs is None:
             rhs = lhs
